@@ -88,6 +88,11 @@ func gen(r *rand.Rand, idx int, tier string) Input {
 	// keep data inside the epoch block
 	lo, hi := int64(stor.EpochLo)+1000, int64(stor.EpochHi)-1000
 	even := r.Intn(8) != 0
+	// the timeline does not depend on the aggregation type: 1 in 3 histories use 'average' series
+	agg := "sum"
+	if r.Intn(3) == 0 {
+		agg = "average"
+	}
 	nput := 1 + r.Intn(10)
 	for i := 0; i < nput; i++ {
 		s := series[r.Intn(len(series))]
@@ -118,7 +123,11 @@ func gen(r *rand.Rand, idx int, tier string) Input {
 		}
 		// make sure all data stays within one 10^9 s block around the base
 		in.Ops = append(in.Ops, stor.Op{Kind: "put", Name: s.RandName(r), From: pf, Until: pf + sp*10,
-			Stacks: stor.EvenStacks(r, 1+r.Intn(3), sp, even), Spy: "gospy", Rate: 100, Units: "samples", Agg: "sum"})
+			Stacks: stor.EvenStacks(r, 1+r.Intn(3), sp, even), Spy: "gospy", Rate: 100, Units: "samples", Agg: agg})
+		if r.Intn(3) == 0 { // a second upload of the same series into the same slot (a node with two writes)
+			in.Ops = append(in.Ops, stor.Op{Kind: "put", Name: s.RandName(r), From: pf, Until: pf + sp*10,
+				Stacks: stor.EvenStacks(r, 1+r.Intn(2), sp, even), Spy: "gospy", Rate: 100, Units: "samples", Agg: agg})
+		}
 		if r.Intn(6) == 0 {
 			in.Ops = append(in.Ops, stor.Op{Kind: "get", Name: stor.RandSelector(r, series).RandName(r), From: from, Until: until})
 		}
